@@ -67,7 +67,9 @@ type c20SackCase struct {
 	Failure string // TRV.Policy.SackFailure name for `pol.sack` ("" = SACK succeeds)
 	Listen  bool
 	SynAck  string // none | plain | sackperm | sackperm-ts | trunc-ts
-	Reply   string // none | sack | plain
+	// ForeignSynAck: another connection's SYN-ACK (same target addr:port, another local port) is captured first
+	ForeignSynAck bool
+	Reply         string // none | sack | plain
 	// faults
 	FilterErrAt   int // index of the failing SetPacketFilter call on the SACK handle, -1 none
 	SinkFail      bool
@@ -89,6 +91,7 @@ type c20SackObs struct {
 	Accepted     int
 	DstOK        bool
 	Panic        string
+	DestFound    bool // the returned run has a hop marked as the destination
 }
 
 const c20InitSeq = 0x00100000
@@ -171,6 +174,12 @@ func c20RunSack(t *testing.T, c c20SackCase, method string) c20SackObs {
 					// unrelated frames first: wrong port, then a non-SYN segment
 					s.Inject(c20TCPFrame(loop, loop, port+1, clientPort, 1, 2, 0x12, []byte{4, 2}))
 					s.Inject(c20TCPFrame(loop, loop, port, clientPort, 1, 2, 0x10, nil))
+					if c.ForeignSynAck {
+						// the SYN-ACK of ANOTHER connection of this host to the same target addr:port (another local
+						// port, other sequence numbers), with SACK permitted: the handshake reader sees every
+						// SYN-ACK while it waits and must not adopt this one
+						s.Inject(c20TCPFrame(loop, loop, port, clientPort^1, 0x00900000, 0x00700001, 0x12, []byte{2, 4, 0x05, 0xb4, 4, 2}))
+					}
 					s.Inject(c20TCPFrame(loop, loop, port, clientPort, 0x00200000, c20InitSeq, 0x12, opts))
 				})
 			}
@@ -218,6 +227,9 @@ func c20RunSack(t *testing.T, c c20SackCase, method string) c20SackObs {
 			run, err := traceroute.VerifRunOnce(context.Background(), params, int(port))
 			o.Err = err
 			o.OK = err == nil && run != nil
+			if run != nil {
+				o.DestFound = run.GetDestinationHop() != nil
+			}
 		}()
 		var ns *sack.NotSupportedError
 		o.Unsupported = errors.As(o.Err, &ns)
@@ -278,6 +290,7 @@ func c20RealSack(t *testing.T, rep *hx.Report, orc *hx.Oracle, rng *hx.RNG) {
 	cases := []c20SackCase{
 		mk("sack-capable", "", nil),
 		mk("sack-capable-timestamps", "", func(c *c20SackCase) { c.SynAck = "sackperm-ts" }),
+		mk("sack-capable-foreign-synack-first", "", func(c *c20SackCase) { c.ForeignSynAck = true }),
 		mk("port-closed", "dial", func(c *c20SackCase) { c.Listen = false }),
 		mk("no-sack-permitted", "no-sack-permitted", func(c *c20SackCase) { c.SynAck = "plain" }),
 		mk("acks-without-sack-blocks", "ack-without-sack", func(c *c20SackCase) { c.Reply = "plain" }),
@@ -320,7 +333,7 @@ func c20RealSack(t *testing.T, rep *hx.Report, orc *hx.Oracle, rng *hx.RNG) {
 			sample := map[string]any{"case": c.Name, "method": method, "listening": c.Listen, "synack": c.SynAck, "reply": c.Reply,
 				"filter_fault_at": c.FilterErrAt, "send_fault": c.SinkFail, "read_fault": c.ReadFault, "must_close_port": c.MustClose, "new_source_sink_fault": c.NewErr,
 				"ok": o.OK, "error": fmt.Sprint(o.Err), "errors_as_not_supported": o.Unsupported, "not_supported_depth": o.NSDepth,
-				"syn_probe_ttls": o.SynProbes, "sack_probe_ttls": o.SackProbes, "accepted_connections": o.Accepted,
+				"syn_probe_ttls": o.SynProbes, "sack_probe_ttls": o.SackProbes, "destination_found": o.DestFound, "foreign_synack_first": c.ForeignSynAck, "accepted_connections": o.Accepted,
 				"model_failure": c.Failure, "model_unsupported": modelUnsup, "model_not_supported_depth": modelDepth}
 			rep.Case("real-sack", c.Name+"/"+method, true, sample)
 			rep.Hit("real-sack:" + c.Name)
@@ -350,6 +363,8 @@ func c20RealSack(t *testing.T, rep *hx.Report, orc *hx.Oracle, rng *hx.RNG) {
 						bad = "method sack put SYN probes on the wire (SACK outcome masked by a SYN trace)"
 					case c.Failure == "" && (!o.OK || !sackTraceOK):
 						bad = fmt.Sprintf("SACK-capable target but method sack gave ok=%v, SACK probes %s, err %v", o.OK, sk, o.Err)
+					case c.Failure == "" && c.Reply == "sack" && !o.DestFound:
+						bad = "the target selectively acknowledged every probe of this connection but the SACK trace does not reach it (were the probes sent with this connection's sequence numbers?)"
 					case c.Failure != "" && o.OK:
 						bad = "method sack returned a trace although the SACK attempt cannot have succeeded"
 					}
@@ -358,6 +373,8 @@ func c20RealSack(t *testing.T, rep *hx.Report, orc *hx.Oracle, rng *hx.RNG) {
 					switch {
 					case c.Failure == "" && (!o.OK || syn != "[]" || !sackTraceOK):
 						bad = fmt.Sprintf("SACK-capable target but prefer_sack gave ok=%v, SYN probes %s, SACK probes %s, err %v", o.OK, syn, sk, o.Err)
+					case c.Failure == "" && c.Reply == "sack" && !o.DestFound:
+						bad = "the target selectively acknowledged every probe of this connection but the prefer_sack trace does not reach it"
 					case capability && (!o.OK || syn != want123):
 						bad = fmt.Sprintf("SACK unavailable (%s) but prefer_sack did not produce a SYN trace (ok=%v, SYN probes %s, err %v)", c.Name, o.OK, syn, o.Err)
 					case c.Failure != "" && !capability && (o.OK || syn != "[]" || o.Err == nil):
